@@ -38,6 +38,7 @@ THEOREMS = [
     "GitAi.Sync.no_loss_values",
     "GitAi.Sync.convergence",
     "GitAi.Sync.convergence_held",
+    "GitAi.Sync.agreement",
     "GitAi.Sync.convergence_needs_single_writer",
     "GitAi.Sync.race_rejects",
     "GitAi.Sync.race_partial",
@@ -79,6 +80,15 @@ class ForkEnv(e2e.Env):
         shutil.rmtree(self.root)
         subprocess.run(["cp", "-a", src.root, self.root], check=True)
         self.clock = src.clock
+
+
+class Rec:
+    """what one executed scenario leaves behind (picklable; no Env)."""
+
+    def __init__(self, w):
+        self.spec, self.n, self.lazy, self.pull_mode = w.spec, w.n, w.lazy, w.pull_mode
+        self.rewrote, self.labels, self.obs, self.macro = w.rewrote, w.labels, w.obs, w.macro
+        self.failures, self.errors, self.nevents = w.failures, w.errors, len(w.events)
 
 
 class World:
@@ -393,13 +403,24 @@ exit 0
             raw = self.tail(raw)
         return self
 
-    def tail(self, raw):
+    def tail(self, raw, light=False):
+        """every clone pushes, then every clone fetches; then the convergence oracle.
+        light: observe once at the end (one macro step) instead of after each command."""
         for i in range(self.n):
             raw = self.ensure(i, raw)
-        for i in range(self.n):
-            raw = self.do(["push", i], raw)
-        for i in range(self.n):
-            raw = self.do(["fetch", i], raw)
+        if light:
+            if any(c is None for c in self.clones):
+                return raw
+            for i in range(self.n):
+                self.clones[i].git("push", "origin", f"b{i}")
+            for i in range(self.n):
+                self.clones[i].git("fetch", "origin")
+            raw = self.record("pushAll+fetchAll", [["push", i] for i in range(self.n)] + [["fetch", i] for i in range(self.n)], raw)
+        else:
+            for i in range(self.n):
+                raw = self.do(["push", i], raw)
+            for i in range(self.n):
+                raw = self.do(["fetch", i], raw)
         if self.obs:
             self.check_converged(self.obs[-1], raw)
         return raw
@@ -407,8 +428,20 @@ exit 0
 
 
 def run_model(worlds):
-    """the same orders on the Lean model (one driver process for the whole batch)."""
-    return C.run_driver([{"op": "sync_run", "n": w.n, "steps": w.macro} for w in worlds])
+    """the same orders on the Lean model (one driver process for the whole batch). The driver is
+    run under the lake lock so that a concurrent `lake build` cannot be relinking it meanwhile."""
+    reqs = [{"op": "sync_run", "n": w.n, "steps": w.macro} for w in worlds]
+    if not reqs:
+        return []
+    err = None
+    for attempt in range(3):
+        try:
+            with C.Lock("lake"):
+                return C.run_driver(reqs)
+        except Exception as e:      # binary missing / not executable: rebuild once, then give up
+            err = f"{type(e).__name__}: {e}"
+            C.lake_build(["driver"])
+    return [{"driver_error": err}] * len(reqs)
 
 
 def canon_model(out):
@@ -440,8 +473,8 @@ def compare(world, out):
     steps = canon_model(out)
     if len(steps) != len(world.obs):
         return {"steps": [len(steps), len(world.obs)]}
-    if len(out["wr"]) != len(world.events):
-        return {"writes": {"model": len(out["wr"]), "impl": len(world.events)}}
+    if len(out["wr"]) != world.nevents:
+        return {"writes": {"model": len(out["wr"]), "impl": world.nevents}}
     for k, (m, o) in enumerate(zip(steps, world.obs)):
         where = None
         if m["remote"] != o["remote"]:
@@ -464,7 +497,7 @@ def compare(world, out):
 
 
 def run_spec(spec):
-    """execute one scenario on the implementation; returns the World (env removed)."""
+    """execute one scenario on the implementation; returns its Rec (env removed)."""
     w = World(spec)
     try:
         with w.env:
@@ -472,7 +505,7 @@ def run_spec(spec):
             w.run()
     except Exception as e:   # harness problem, not a verdict
         w.errors.append(f"exception: {type(e).__name__}: {e}")
-    return w
+    return Rec(w)
 
 
 # ------------------------------------------------------------------ generators
@@ -569,81 +602,90 @@ def replay(spec):
 
 
 # ------------------------------------------------------------------ exhaustive small scope (thorough)
+def enum_alphabet(n):
+    return [(k, i) for k in ("commit", "push", "fetch") for i in range(n)]
+
+
+def enum_subtree(args):
+    """worker (own process): execute every ordering extending `prefix` up to `depth` steps with
+    shared prefixes — the scratch tree is copied at each branching —, run pushAll+fetchAll at each
+    leaf; returns the leaves' Recs and counters."""
+    n, depth, prefix, deadline = args
+    alphabet = enum_alphabet(n)
+    done, stats = [], {"nodes": 0, "leaves": 0, "complete": True}
+
+    def real(kind, salt):
+        return "pull" if kind == "fetch" and (salt % 3 == 0) else kind
+
+    def descend(world, raw, seq, steps):
+        stats["nodes"] += 1
+        late = time.time() > deadline
+        if len(seq) == depth or late:
+            if late and len(seq) < depth:
+                stats["complete"] = False
+            stats["leaves"] += 1
+            world.tail(raw, light=True)
+            done.append(Rec(world))
+            return
+        kids = [a for a in alphabet if canonical_first_use(seq + [a])]
+        for ci, a in enumerate(kids):
+            if ci == len(kids) - 1:
+                child = world                      # the last child continues in the parent's tree
+            else:
+                child = World(dict(world.spec), ForkEnv(world.env))
+                child.reopen()
+                for f in ("events", "macro", "labels", "obs", "failures", "errors"):
+                    setattr(child, f, list(getattr(world, f)))
+                child.blob_text = dict(world.blob_text)
+                child.ncommit, child.rewrote = world.ncommit, world.rewrote
+            st2 = steps + [[real(a[0], len(seq) + a[1]), a[1]]]
+            child.spec = dict(world.spec, steps=st2)
+            try:
+                r2 = child.do(st2[-1], raw)
+                descend(child, r2, seq + [a], st2)
+            except Exception as e:
+                child.errors.append(f"exception: {type(e).__name__}: {e}")
+                done.append(Rec(child))
+            finally:
+                if child is not world:
+                    shutil.rmtree(child.env.root, ignore_errors=True)
+
+    w = World({"n": n, "lazy": [False] * n, "pull_mode": "ff", "relurl": True, "steps": [], "tail": True})
+    try:
+        with w.env:
+            w.setup()
+            raw, seq = None, []
+            for a in prefix:
+                w.spec = dict(w.spec, steps=[list(x) for x in seq] + [[a[0], a[1]]])
+                raw = w.do([a[0], a[1]], raw)
+                seq.append(a)
+            descend(w, raw, seq, [[a[0], a[1]] for a in seq])
+    except Exception as e:
+        w.errors.append(f"exception: {type(e).__name__}: {e}")
+        done.append(Rec(w))
+    return done, stats
+
+
 def enumerate_orderings(res, n, depth, rng, deadline):
     """all orderings of ≤ depth steps over {commit, push, fetch|pull} × n clones, up to renaming
-    of clones, executed with shared prefixes (the scratch tree is copied at every branching);
-    every node is compared with the model and judged by the step oracles, every leaf additionally
-    runs pushAll+fetchAll and the convergence oracle. Search aid only."""
-    alphabet = [(k, i) for k in ("commit", "push", "fetch") for i in range(n)]
-    stats = {"nodes": 0, "leaves": 0, "complete": True}
-    roots = [(a,) for a in alphabet if canonical_first_use([a])]
-    roots2 = [r + (a,) for r in roots for a in alphabet if canonical_first_use(r + (a,))] if depth >= 2 else roots
-    rng.shuffle(roots2)
-
-    def subtree(prefix):
-        done = []       # finished Worlds (env gone) to compare with the model
-
-        def real(kind, salt):
-            return "pull" if kind == "fetch" and (salt % 3 == 0) else kind
-
-        def descend(world, raw, seq, steps):
-            stats["nodes"] += 1
-            if len(seq) == depth or time.time() > deadline:
-                if time.time() > deadline and len(seq) < depth:
-                    stats["complete"] = False
-                stats["leaves"] += 1
-                world.tail(raw)
-                done.append(world)
-                return
-            kids = [a for a in alphabet if canonical_first_use(seq + [a])]
-            for ci, a in enumerate(kids):
-                last = ci == len(kids) - 1
-                if last:
-                    child = world
-                    # the interior node itself is recorded by its children's shared prefix
-                else:
-                    env = ForkEnv(world.env)
-                    child = World(dict(world.spec), env)
-                    child.reopen()
-                    for f in ("events", "macro", "labels", "obs", "failures", "errors"):
-                        setattr(child, f, list(getattr(world, f)))
-                    child.blob_text = dict(world.blob_text)
-                    child.ncommit, child.rewrote = world.ncommit, world.rewrote
-                st2 = steps + [[real(a[0], len(seq) + a[1]), a[1]]]
-                child.spec = dict(world.spec, steps=st2)
-                try:
-                    r2 = child.do(st2[-1], raw)
-                    descend(child, r2, seq + [a], st2)
-                except Exception as e:
-                    child.errors.append(f"exception: {type(e).__name__}: {e}")
-                    done.append(child)
-                finally:
-                    if child is not world:
-                        shutil.rmtree(child.env.root, ignore_errors=True)
-
-        w = World({"n": n, "lazy": [False] * n, "pull_mode": "ff", "relurl": True, "steps": [], "tail": True})
-        try:
-            with w.env:
-                w.setup()
-                raw = None
-                seq = []
-                for a in prefix:
-                    w.spec = dict(w.spec, steps=[list(x) for x in seq] + [[a[0], a[1]]])
-                    raw = w.do([a[0], a[1]], raw)
-                    seq.append(a)
-                descend(w, raw, seq, [[a[0], a[1]] for a in seq])
-        except Exception as e:
-            w.errors.append(f"exception: {type(e).__name__}: {e}")
-            done.append(w)
-        return done
-
+    of clones (ids in order of first use). Every step of every ordering is compared with the
+    model and judged by the step oracles; every maximal ordering is followed by pushAll+fetchAll
+    and the convergence oracle (shorter orderings are its prefixes). Search aid only."""
+    alphabet = enum_alphabet(n)
+    roots = [[a] for a in alphabet if canonical_first_use([a])]
+    for _ in range(min(2, depth) - 1):
+        roots = [r + [a] for r in roots for a in alphabet if canonical_first_use(r + [a])]
+    rng.shuffle(roots)
+    total = {"nodes": 0, "leaves": 0, "complete": True, "subtrees": len(roots)}
     ok = True
-    with concurrent.futures.ThreadPoolExecutor(WORKERS) as ex:
-        for done in ex.map(subtree, roots2):
+    with concurrent.futures.ProcessPoolExecutor(WORKERS) as ex:
+        for done, st in ex.map(enum_subtree, [(n, depth, r, deadline) for r in roots]):
+            total["nodes"] += st["nodes"]; total["leaves"] += st["leaves"]
+            total["complete"] = total["complete"] and st["complete"]
             outs = run_model(done)
             for w, out in zip(done, outs):
                 ok = account(res, w, out, f"enum{n}") and ok
-    return ok, stats
+    return ok, total
 
 
 # ------------------------------------------------------------------ entry point
@@ -687,15 +729,23 @@ def run(tier, seed):
     specs = [gen_spec(rng, kernel=(k % 3 == 2)) for k in range(nq)]
     ok2, _ = run_batch(res, specs, "generated")
     tie_ok = tie_ok and ok2
-    if tier == "thorough" and not res.violations:
-        budget = float(os.environ.get("VERIF_C10_BUDGET_S", "1500"))
-        deadline = time.time() + budget
-        d2 = int(os.environ.get("VERIF_C10_DEPTH2", "6"))
-        d3 = int(os.environ.get("VERIF_C10_DEPTH3", "5"))
-        ok3, st2 = enumerate_orderings(res, 2, d2, rng, time.time() + budget * 0.6)
-        ok4, st3 = enumerate_orderings(res, 3, d3, rng, deadline)
-        res.extra["enumeration"] = {"2 clones": dict(st2, depth=d2), "3 clones": dict(st3, depth=d3),
-                                    "note": "bounded enumeration supports the correspondence and the failing-input search only"}
+    if not res.violations:
+        if tier == "thorough":
+            budget = float(os.environ.get("VERIF_C10_BUDGET_S", "1500"))
+            d2 = int(os.environ.get("VERIF_C10_DEPTH2", "6"))
+            d3 = int(os.environ.get("VERIF_C10_DEPTH3", "5"))
+        else:
+            budget, d2, d3 = 100.0, 3, 0
+        t0 = time.time()
+        ok3, st2 = enumerate_orderings(res, 2, d2, rng, t0 + budget * 0.6)
+        enum = {"2 clones": dict(st2, depth=d2)}
+        ok4 = True
+        if d3:
+            ok4, st3 = enumerate_orderings(res, 3, d3, rng, t0 + budget)
+            enum["3 clones"] = dict(st3, depth=d3)
+        enum["note"] = ("all orderings of <= depth steps up to renaming of clones; bounded enumeration supports the "
+                        "correspondence and the failing-input search only; complete=false means the time budget cut it")
+        res.extra["enumeration"] = enum
         tie_ok = tie_ok and ok3 and ok4
     res.obligation("correspondence:sync-e2e (model prediction = observation after every step)", tie_ok and not shape, "correspondence")
     need = ["model:fetch-copy", "model:pmerge-merge3", "model:send-rejected", "model:send-create", "model:send-ff", "model:fetch-ff"]
